@@ -755,6 +755,17 @@ macro_rules! poly_family {
                 $(
                     $o.emit(json!({"k": "poly", "op": "quat_rot", "f": $fm, "ty": stringify!($Q), "sp": "q * Vec3A", "a": wv(&la), "v": wv(&a3), "got": wv(&(qa * <$V3x as FromSl<_>>::fs(&a3)).to_array())}));
                 )*
+                // quaternions that are unit only to the tolerance glam itself accepts (|q|^2 = 1 +- 6e-5, and unit to single precision only):
+                // q * v is the vector part of q v q* for EVERY q -- a formula that assumes |q| = 1 exactly (2 w^2 - 1, the unit-length matrix)
+                // is off by (|q|^2 - 1) |v|
+                for sc in [1.00003 as $S, 0.99997, 1.0 + 6.0e-8] {
+                    let qs = qa * sc;
+                    let ls: Vec<$S> = qs.to_array().to_vec();
+                    $o.emit(json!({"k": "poly", "op": "quat_rot", "f": $fm, "ty": stringify!($Q), "sp": "q * Vec3 (|q| off by a few 1e-5)", "a": wv(&ls), "v": wv(&a3), "got": wv(&(qs * $V3::from_slice(&a3)).to_array())}));
+                    $(
+                        $o.emit(json!({"k": "poly", "op": "quat_rot", "f": $fm, "ty": stringify!($Q), "sp": "q * Vec3A (|q| off by a few 1e-5)", "a": wv(&ls), "v": wv(&a3), "got": wv(&(qs * <$V3x as FromSl<_>>::fs(&a3)).to_array())}));
+                    )*
+                }
             }
         }
     }};
